@@ -87,6 +87,11 @@ def judge(case, impl, model):
             fails.append(("nondeterministic:hashseed",
                           f"stub bytes under PYTHONHASHSEED={s} differ from PYTHONHASHSEED=0 ({sha[:60]})"))
     specs = {it["name"]: it for it in case["mod"]["items"] if it["kind"] == "struct"}
+    ex = impl.get("extra_imports")
+    if ex is None:
+        msgs.append("extra-import block not found in the stub")
+    elif ex and all(x.startswith("from ") and " import " in x for x in ex) and model.get("imports") != ex:
+        msgs.append(f"extra imports: model renders {model.get('imports')} real {ex}")
     if "syntax_err" in impl:
         se = impl["syntax_err"]
         nested = any(S.has_nested_opt(f["ty"]) for it in specs.values() for f in it["fields"] if f.get("const") is None)
